@@ -1,6 +1,6 @@
 (* C13 Results do not depend on what was computed before (no stale workspace). *)
 From Coq Require Import List NArith.
-From RV Require Import Scalar LinAlg3 Spatial Quat Laws ListArr ModelDef JointDef KinDef LinDef DynDef C14Thm WsLemmas KinThm DynThm.
+From RV Require Import Scalar LinAlg3 Spatial Quat Laws ListArr ModelDef JointDef KinDef LinDef DynDef C14Thm WsLemmas KinThm KinThm2 DynThm NleThm KinThm3 C04Thm JacThm JacThm2 JacThm3.
 Section P.
   Context {T : Type} (O : Ops T) {FL : FieldLaws O}.
   (* jcalc never writes X_base, v, a, c, f, pA, U, ..., and writes X_lambda, v_J, c_J, S only at its own index *)
@@ -39,6 +39,57 @@ Section P.
     vslice (o0 O) (snd (inverse_dynamics O M w1 q qd qdd tau1 None)) (jq (getJ M i)) (jdof (getJ M i)) =
     vslice (o0 O) (snd (inverse_dynamics O M w2 q qd qdd tau2 None)) (jq (getJ M i)) (jdof (getJ M i)).
   Proof. intros W C. exact (id_ws_independent O M q qd qdd W C w1 w2 tau1 tau2 i). Qed.
+  (* the bias force vector: every joint's segment *)
+  Theorem C13_nonlinear_effects (M : @Model T) q qd (w1 w2 : @WS T) tau1 tau2 i : WF M ->
+    (forall i j, 0 < i < nbodies M -> 0 < j < nbodies M -> i <> j ->
+       is_custom (jkind (getJ M i)) = true -> is_custom (jkind (getJ M j)) = true -> jcust (getJ M i) <> jcust (getJ M j)) ->
+    order_ok M = true ->
+    Good O M w1 -> Good O M w2 -> dof_count M <= length tau1 -> dof_count M <= length tau2 -> 0 < i < nbodies M ->
+    vslice (o0 O) (snd (nonlinear_effects O M w1 q qd tau1 None)) (jq (getJ M i)) (jdof (getJ M i)) =
+    vslice (o0 O) (snd (nonlinear_effects O M w2 q qd tau2 None)) (jq (getJ M i)) (jdof (getJ M i)).
+  Proof.
+    intros W C Ord G1 G2 L1 L2 Hi. destruct (order_ok_spec O M Ord) as [Hc Hr].
+    rewrite (nle_is_id_at_zero_acceleration O M q qd W C Hc Hr w1 w1 tau1 tau1 i G1 G1 L1 L1 Hi).
+    rewrite (nle_is_id_at_zero_acceleration O M q qd W C Hc Hr w2 w1 tau2 tau1 i G2 G1 L2 L1 Hi).
+    reflexivity.
+  Qed.
+  (* the full kinematics update: body velocities, velocity-product terms, accelerations and base transforms *)
+  Theorem C13_full_kinematics_update (M : @Model T) q qd qdd (w1 w2 : @WS T) i : WF M ->
+    (forall i j, 0 < i < nbodies M -> 0 < j < nbodies M -> i <> j ->
+       is_custom (jkind (getJ M i)) = true -> is_custom (jkind (getJ M j)) = true -> jcust (getJ M i) <> jcust (getJ M j)) ->
+    Good O M w1 -> Good O M w2 -> 0 < i < nbodies M ->
+    let a := update_kinematics O M w1 q qd qdd in let b := update_kinematics O M w2 q qd qdd in
+    gv O a i = gv O b i /\ gc O a i = gc O b i /\ ga O a i = ga O b i /\ gXb O a i = gXb O b i.
+  Proof.
+    intros W C G1 G2 Hi. cbv zeta.
+    destruct (uk_a_spec O M q qd qdd W C w1 G1 i Hi) as (A1 & B1 & C1 & D1).
+    destruct (uk_a_spec O M q qd qdd W C w2 G2 i Hi) as (A2 & B2 & C2 & D2).
+    rewrite A1, A2, B1, B2, C1, C2, D1, D2. repeat split; reflexivity.
+  Qed.
+  (* point acceleration (6-D) with the update flag set *)
+  Theorem C13_point_acceleration (M : @Model T) (w1 w2 : @WS T) q qd qdd (id : N) pt : WF M ->
+    (forall i j, 0 < i < nbodies M -> 0 < j < nbodies M -> i <> j ->
+       is_custom (jkind (getJ M i)) = true -> is_custom (jkind (getJ M j)) = true -> jcust (getJ M i) <> jcust (getJ M j)) ->
+    Good O M w1 -> Good O M w2 -> (id < fixed_disc)%N -> 0 < N.to_nat id < nbodies M ->
+    snd (calc_point_acceleration6 O M w1 q qd qdd id pt true) = snd (calc_point_acceleration6 O M w2 q qd qdd id pt true).
+  Proof. intros W C. exact (point_acceleration_ws_independent O M q qd qdd W C w1 w2 id pt). Qed.
 End P.
+Section P2.
+  Context {T : Type} (O : Ops T) {FL : FieldLaws O} {TL : TrigLaws O}.
+  (* the three Jacobians with the update flag set *)
+  Theorem C13_jacobians (M : @Model T) q (w1 w2 : @WS T) (id : N) (p : V3 T) G6 G3 : WF M ->
+    (forall i j, 0 < i < nbodies M -> 0 < j < nbodies M -> i <> j ->
+       is_custom (jkind (getJ M i)) = true -> is_custom (jkind (getJ M j)) = true -> jcust (getJ M i) <> jcust (getJ M j)) ->
+    Good O M w1 -> Good O M w2 -> (id < fixed_disc)%N -> 0 < N.to_nat id < nbodies M ->
+    point_jacobian6 O M (ukc_q O M w1 q) id p G6 = point_jacobian6 O M (ukc_q O M w2 q) id p G6 /\
+    point_jacobian O M (ukc_q O M w1 q) id p G3 = point_jacobian O M (ukc_q O M w2 q) id p G3 /\
+    body_spatial_jacobian O M (ukc_q O M w1 q) id G6 = body_spatial_jacobian O M (ukc_q O M w2 q) id G6.
+  Proof.
+    intros W C G1 G2. 
+    exact (jacobians_ws_independent O M q W C (vzeros (o0 O) (dof_count M)) (vzeros_length _ _) w1 w2 id p G6 G3 G1 G2).
+  Qed.
+End P2.
 Print Assumptions C13_jcalc_frame. Print Assumptions C13_jcalc_values. Print Assumptions C13_jcalc_keeps_invariant.
 Print Assumptions C13_position_update. Print Assumptions C13_point_velocity. Print Assumptions C13_inverse_dynamics.
+Print Assumptions C13_nonlinear_effects. Print Assumptions C13_full_kinematics_update. Print Assumptions C13_point_acceleration.
+Print Assumptions C13_jacobians.
